@@ -29,7 +29,7 @@ def strategy_(draw):
     names = sorted(set(r[0] for r in case['rows']))
     how = draw(st.sampled_from(['reverse', 'swap', 'fresh', 'fresh', 'fresh']))
     if how == 'swap' and len(names) >= 2:
-        new = list(draw(st.permutations(names)))
+        new = list(draw(S.permutation(names)))
     elif how == 'reverse':
         fresh = sorted(draw(st.lists(st.sampled_from(TARGETS), min_size=len(names), max_size=len(names),
                                      unique=True)), reverse=True)
